@@ -1097,11 +1097,12 @@ func DerivesFrom(v ssa.Value, pred func(ssa.Value) bool) bool {
 				}
 			}
 		case *ssa.Call:
-			if b, ok := y.Call.Value.(*ssa.Builtin); ok && b.Name() == "append" {
-				for _, a := range y.Call.Args {
-					if visit(a, d+1) {
-						return true
-					}
+			// builtins (append) and ordinary calls: the result is taken to
+			// derive from every argument (over-approximation; used only for
+			// positive provenance checks)
+			for _, a := range y.Call.Args {
+				if visit(a, d+1) {
+					return true
 				}
 			}
 		}
@@ -1147,4 +1148,30 @@ func CellUses(cell ssa.Value) []CellUse {
 	}
 	visit(cell)
 	return out
+}
+
+// DerivesFromPath reports whether the access path of v (see PathOf) mentions
+// the field/variable name seg.
+func DerivesFromPath(v ssa.Value, seg string) bool {
+	p := PathOf(v)
+	for _, part := range splitPath(p) {
+		if part == seg {
+			return true
+		}
+	}
+	return false
+}
+
+func splitPath(p string) []string {
+	var out []string
+	cur := ""
+	for _, ch := range p {
+		if ch == '.' {
+			out = append(out, cur)
+			cur = ""
+		} else {
+			cur += string(ch)
+		}
+	}
+	return append(out, cur)
 }
